@@ -156,8 +156,15 @@ def _check_trim(ctx, t, imp, what):
 def check_json(case, ctx):
     shapes = case["shapes"]
     objs = []
-    for d in shapes:
-        o = build.make(d)
+    for i_, d in enumerate(shapes):
+        if d["rational"] and (len(d["P"]) + i_) % 2:
+            # built with the unweighted control points assigned last, from lists the caller overwrites afterwards
+            handed = {}
+            o = build.make(d, mode="wp", inputs=handed)
+            build.scribble(handed, knots=bool(d.get("normalize", True)))
+            ctx.label("callers-lists-overwritten-before-export")
+        else:
+            o = build.make(d)
         _set_delta(o, d["delta"])
         if d["trims"]:
             o.trims = [_build_trim(t) for t in d["trims"]]
